@@ -265,6 +265,8 @@ PLAN["C04"] = {
     "verus": [],
     "kani": [{"tiers": Q, "jobs": 3, "timeout": 1200, "harnesses": dict(K_REGS_THREAD, **K_SUSPEND_THREADS)},
              {"tiers": T, "jobs": 3, "timeout": 5400, "mem_gb": 20, "harnesses": dict(K_TLS, **dict(K_DUMP, **K_GENERATE))}],
+    "native": [{"stem": "ptrace_dumper", "filter": "bprime_enumerate", "tiers": Q, "tests": {
+        "bprime_enumerate_threads_of_this_process": H("B'", "PtraceDumper::enumerate_threads (this process as the target)", "6 helper threads + the runner's own, compared with /proc/self/task")}}],
     "trusted": ["that a ptrace-stopped thread does not run, and what /proc/<pid>/task lists, are the kernel's contract (L5)"],
     "samples": ["vk_thread_fill_cpu_context_gprs: out.rax == regs.rax ... out.cs == regs.cs as u16, dr0..dr7, rip"],
 }
@@ -300,8 +302,10 @@ PLAN["C15"] = {
     "verus": [],
     "kani": [{"tiers": Q, "jobs": 4, "timeout": 1200, "harnesses": K_THREAD_NAMES}],
     "native": [{"stem": "thread_names_stream", "filter": "", "tiers": Q, "tests": {
-        "c15_unnamed_thread_before_named_thread": H("B'", "thread_names_stream::write", "threads [unnamed 11, named 22 \"bc\"]")}}],
-    "trusted": ["reading /proc/<pid>/task/<tid>/comm is outside reach; names are concrete (strings are a cost cliff for CBMC)",
+        "c15_unnamed_thread_before_named_thread": H("B'", "thread_names_stream::write", "threads [unnamed 11, named 22 \"bc\"]")}},
+               {"stem": "ptrace_dumper", "filter": "bprime_enumerate", "tiers": Q, "tests": {
+        "bprime_enumerate_threads_of_this_process": H("B'", "PtraceDumper::enumerate_threads (names as the kernel reports them)", "6 thread names: length 1..15, leading/inner whitespace, non-ASCII")}}],
+    "trusted": ["names in the Kani harnesses are concrete (strings are a cost cliff for CBMC)",
                 "Verus cannot read the function (filter().count(), enumerate())"],
     "samples": ["vk_thread_names_second_only: header == 1, entry 0 == (tid1, rva of \"bc\")"],
 }
@@ -360,13 +364,18 @@ PLAN["C14"] = {
 PLAN["C08"] = {
     "level": "model_checking",
     "explanation": "the module filters: is_interesting and contains_address proved for all field values (Kani, complete), is_contained_in for user lists of 0..2 "
-                   "mappings (bounded). Build-id/SONAME content is C14; entry-point-first and the effective name are not covered",
+                   "mappings (bounded); the effective module name (SONAME replaces / is appended to the last path component) and entry-point-module-first by native "
+                   "enumeration; build-id/SONAME content is C14",
     "verus": [],
     "kani": [{"tiers": Q, "jobs": 5, "timeout": 900, "harnesses": K_FILTERS}],
     "native": [{"stem": "module_reader", "filter": "c14_well", "tiers": Q, "tests": {
-        "c14_well_formed_image_is_identified": H("B'", "BuildId/SoName::read_from_module", "3 hand-built ELF64 images")}}],
-    "trusted": ["enumerate_mappings' entry-point swap opens /proc/<pid>/maps before the two statements: no pure function to put under contract (not covered)",
-                "fill_raw_module / effective path name: PathBuf and lossy strings, not covered"],
+        "c14_well_formed_image_is_identified": H("B'", "BuildId/SoName::read_from_module", "3 hand-built ELF64 images")}},
+               {"stem": "maps_reader", "filter": "bprime_effective", "tiers": Q, "tests": {
+        "bprime_effective_module_name": H("B'", "MappingInfo::get_mapping_effective_path_name_and_version", "8 paths x 4 SONAMEs x executable x offset (128)")}},
+               {"stem": "ptrace_dumper", "filter": "bprime_entry", "tiers": Q, "tests": {
+        "bprime_entry_point_mapping_is_first": H("B'", "PtraceDumper::enumerate_mappings (this process as the target)", "every file-backed derived mapping of the test process x first/last address as the entry point")}}],
+    "trusted": ["that a module's debug record holds the build id an independent reader finds in the file, and merged extents of real ELF images, are not decided (C13/C14 cover aggregation and identification separately)",
+                "fill_raw_module's record layout (cv record, version info) is not under contract"],
     "samples": ["is_interesting == (name.is_some() && (offset == 0 || executable) && size >= 4096)"],
 }
 
@@ -386,8 +395,9 @@ PLAN["C11"] = {
 
 PLAN["C18"] = {
     "level": "model_checking",
-    "explanation": "decidable conjuncts only: the memory-protection table (Kani, complete), 0-means-unset conversion of caller auxv values (Kani, complete), "
-                   "caller-supplied auxv values take precedence over the kernel's for every subset of keys (native enumeration on the process's own auxv)",
+    "explanation": "the memory-protection table and the 0-means-unset conversion of caller auxv values (Kani, complete); caller-supplied auxv values take "
+                   "precedence over the kernel's for every subset of keys, the linker list of a fake target is reproduced exactly, and the raw /proc copies, "
+                   "memory-info list and handle stream of a stopped child equal what /proc reports (native checks on concrete targets)",
     "verus": [],
     "kani": [{"tiers": Q, "jobs": 2, "timeout": 600, "harnesses": {
         "vk_memory_protection_table": H("C", "memory_info_list_stream::get_memory_protection"),
@@ -395,8 +405,12 @@ PLAN["C18"] = {
     "native": [{"stem": "auxv", "filter": "", "tiers": Q, "tests": {
         "bprime_direct_auxv_values_take_precedence": H("B'", "AuxvDumpInfo::try_filling_missing_info", "16 subsets of supplied keys x 4 keys")}},
                {"stem": "dso_debug", "filter": "c18", "tiers": Q, "tests": {
-        "c18_linker_list_is_reproduced": H("B'", "dso_debug::write_dso_debug_stream", "one well-formed fake target: 2 program headers, DT_DEBUG, 2 link maps")}}],
-    "trusted": ["that the raw streams equal what the kernel reports, handle/mode listing, uname/cpuinfo parsing, the linker list walk: environment, not decided (DESIGN §8)"],
+        "c18_linker_list_is_reproduced": H("B'", "dso_debug::write_dso_debug_stream", "one well-formed fake target: 2 program headers, DT_DEBUG, 2 link maps")}},
+               {"stem": "minidump_writer", "filter": "bprime_os", "tiers": Q, "tests": {
+        "bprime_os_information_streams_mirror_a_stopped_child": H("B'", "write_file, memory_info_list_stream::write, handle_data_stream::write",
+            "one forked, SIGSTOPped child: 6 /proc files, every maps line, every open descriptor (incl. a non-UTF-8 file name and a pipe)")}}],
+    "trusted": ["system information (uname / cpuinfo parsing) is not decided",
+                "the /proc comparisons are made on one concrete stopped child, not for every target"],
     "samples": ["get_memory_protection(rw-) == PAGE_READWRITE"],
 }
 
